@@ -100,9 +100,7 @@ func (i IRI) MarshalJSON() ([]byte, error) {
 		return nil, nil
 	}
 	b := make([]byte, 0)
-	JSONWrite(&b, '"')
-	JSONWriteS(&b, i.String())
-	JSONWrite(&b, '"')
+	jsonWriteEscapedString(&b, i.String())
 	return b, nil
 }
 
@@ -216,9 +214,7 @@ func (i IRIs) MarshalJSON() ([]byte, error) {
 	JSONWrite(&b, '[')
 	for k, iri := range i {
 		writeCommaIfNotEmpty(k > 0)
-		JSONWrite(&b, '"')
-		JSONWriteS(&b, iri.String())
-		JSONWrite(&b, '"')
+		jsonWriteEscapedString(&b, iri.String())
 	}
 	JSONWrite(&b, ']')
 	return b, nil
